@@ -16,6 +16,8 @@ func main() {
 		os.Exit(2)
 	}
 	switch os.Args[1] {
+	case "groups":
+		os.Exit(vcodec.GroupsMain(os.Args[2:]))
 	case "dict":
 		os.Exit(vcodec.DictMain(os.Args[2:]))
 	case "crash":
